@@ -27,10 +27,13 @@ MANIFEST = dict(
     note="Partial claim. TLA+ contributes the protocol; the numeric predicates are computed by the driver with Eigen's "
          "SelfAdjointEigenSolver/EigenSolver and only consumed by the spec (units of the selected tolerance). "
          "'Success within the limit' and 'lowest roots' are asserted ONLY for the families where the statement promises "
-         "them (SYMM: strictly diagonally dominant; HAM: BSE form with A diagonally dominant and A+-B positive definite, "
-         "lowest positive roots); Davidson started from unit vectors converges to non-lowest roots on block-decoupled "
-         "matrices by construction, asserting 'lowest' there would be noise - those cases are only counted. "
-         "Protocol non-conformance of the log is SPEC-DRIFT (warning), never a violation by itself. Not covered: "
+         "them (SYMM: strictly diagonally dominant, iter_max >= 50, tolerance at least 10x above the rounding floor of "
+         "the matrix; HAM: BSE form with A diagonally dominant and A+-B positive definite, lowest positive roots); "
+         "Davidson started from unit vectors converges to non-lowest roots on block-decoupled matrices by construction, "
+         "asserting 'lowest' there would be noise - those cases are only counted. Only failed property predicates "
+         "(evaluated by TLC on the final event of each observed run) are violations; a log that is not a behaviour of "
+         "the skeleton (other restart/update sizes, iteration structure) is SPEC-DRIFT (warning, exit 0) - DESIGN 12.2. "
+         "Known findings: flat-diagonal dominant matrices (no success in 50 iterations, missed root). Not covered: "
          "matrices > 400, complex/non-BSE non-symmetric input, size_initial_guess < size_update (undefined in the code), "
          "reuse of one solver object, multi-threaded products.")
 
